@@ -133,17 +133,52 @@ impl Span {
     /// TODO: return the rejects as Span, instead of Contacts
     pub(crate) fn endorse(self) -> Endorse<FragmentSpan, Span> {
         // try to endorse as circles or arcs
+        #[cfg(feature = "verif-trace")]
+        let span_cells = crate::verif::json_span(&self);
         let (mut accepted, un_endorsed_span): (Vec<FragmentSpan>, Span) =
             self.endorse_to_arcs_and_circles();
+        #[cfg(feature = "verif-trace")]
+        crate::verif::emit("circle", || {
+            format!(
+                "\"span\":{},\"accepted\":{},\"rest\":{}",
+                span_cells,
+                crate::verif::json_fragment_spans(accepted.iter()),
+                crate::verif::json_span(&un_endorsed_span)
+            )
+        });
 
         // convert into contacts and try to endorse as rects fragments
         let un_endorsed_contacts: Vec<Contacts> = un_endorsed_span.into();
         let rect_endorsed: Endorse<FragmentSpan, Contacts> =
             Contacts::endorse_rects(un_endorsed_contacts);
 
+        #[cfg(feature = "verif-trace")]
+        crate::verif::emit("rects", || {
+            format!(
+                "\"accepted\":{},\"rejects\":{}",
+                crate::verif::json_fragment_spans(
+                    rect_endorsed.accepted.iter()
+                ),
+                crate::verif::json_list(
+                    rect_endorsed.rejects.iter(),
+                    crate::verif::json_contacts
+                )
+            )
+        });
         accepted.extend(rect_endorsed.accepted);
 
         let re_endorsed = Self::re_endorse(rect_endorsed.rejects);
+        #[cfg(feature = "verif-trace")]
+        crate::verif::emit("reendorse", || {
+            format!(
+                "\"accepted\":{},\"rejects\":{}",
+                crate::verif::json_fragment_spans(re_endorsed.accepted.iter()),
+                crate::verif::json_list(
+                    re_endorsed.rejects.iter(),
+                    crate::verif::json_span
+                )
+            )
+        });
 
         let mut endorsed = Endorse {
             accepted,
@@ -307,12 +342,38 @@ impl<'p> From<Span> for PropertyBuffer<'p> {
 ///
 impl From<Span> for Vec<Contacts> {
     fn from(span: Span) -> Vec<Contacts> {
+        #[cfg(feature = "verif-trace")]
+        let span_cells = crate::verif::json_span(&span);
         let fb = FragmentBuffer::from(span);
         let merged_fragments: Vec<FragmentSpan> = fb.merge_fragment_spans();
+        #[cfg(feature = "verif-trace")]
+        crate::verif::emit("merged", || {
+            format!(
+                "\"span\":{},\"frags\":{}",
+                span_cells,
+                crate::verif::json_fragment_spans(merged_fragments.iter())
+            )
+        });
         let contacts: Vec<Contacts> = merged_fragments
             .into_iter()
             .map(|frag| Contacts::new(frag))
             .collect();
+        // with the hooks on, the grouping happens here and is logged; the call below then
+        // finds a fixpoint and returns it unchanged
+        #[cfg(feature = "verif-trace")]
+        let contacts = {
+            let grouped = Contacts::merge_recursive(contacts);
+            crate::verif::emit("contacts", || {
+                format!(
+                    "\"groups\":{}",
+                    crate::verif::json_list(
+                        grouped.iter(),
+                        crate::verif::json_contacts
+                    )
+                )
+            });
+            grouped
+        };
         Contacts::merge_recursive(contacts)
     }
 }
